@@ -151,9 +151,63 @@ CHECKS["C06"] = cfg(
     assumptions=["endpoints produced by other zlib encoders are outside the statement"],
 )
 
+CHECKS["C04"] = cfg(
+    "C04", exhaustive=True,
+    technique="runtime monitoring: entry-model oracle after every document operation (effect, id-uniqueness invariants, JSON round trip, full resolution table), exhaustive op sequences to bounded depth + random walks",
+    level_text="All sequences of checked document mutations to depth 3 (quick) / 4 (thorough) over a 48-operation universe from four start documents (empty, built, with dangling references, with path/query id variants), plus long random walks over a larger universe and deserialised start documents, on CoreDocument and IotaDocument. After every step the harness compares the public snapshot with its own entry model: announced effect, refused-means-unchanged, the three id-uniqueness invariants, to_json/from_json identity, and every resolve_method/resolve_service/methods query in every scope against the set of answers the model allows.",
+    min={"quick": {"op_steps": 300000, "distinct_exact": 400000, "state_checks": 20000, "resolve_exact_some": 500000, "insert_method_ok": 10000,
+                   "remove_method_some": 5000, "insert_service_ok": 4000, "attach_true": 8000, "detach_true": 3000, "start_accepted": 2000, "walks": 2000, "nontrivial": 500},
+         "thorough": {"op_steps": 10000000, "distinct_exact": 10000000, "state_checks": 500000, "walks": 100000}},
+    thorough=[{"flavour": "checked", "shards": 16, "timeout": 3000},
+              {"flavour": "miri", "shards": 4, "timeout": 3000, "args": {"scale": 2}}],
+    assumptions=["collections are compared as multisets (order is not part of the statement)",
+                 "for genuinely ambiguous queries any matching entry is accepted",
+                 "remove_method returning None may still drop dangling references with exactly that id (documented behaviour)",
+                 "the *_unchecked mutators are not part of the histories"],
+)
+
+CHECKS["C09"] = cfg(
+    "C09", level="fault_enumeration", exhaustive=True,
+    technique="runtime monitoring with fault injection: fault-injecting JwkStorage/KeyIdStorage wrappers, exhaustive enumeration of failing-call subsets per scenario (incl. undo path), before/after observation of document and both stores",
+    level_text="For generate_method and purge_method on CoreDocument and IotaDocument every subset of failing storage call occurrences (discovered by dry runs and grown to a fixpoint so that undo-path calls are included) is injected, over every scope/fragment form/target shape (embedded in each relationship, general purpose with each of the 32 reference subsets), both poll orders of the joined deletes; document (methods with scopes, relationship references, services) and both stores are compared as sets before/after: Ok => everything in place and signing works / everything gone; Err other than UndoOperationFailed => observably unchanged. Seeded random generate/purge/attach histories with per-call fault masks on top.",
+    min={"quick": {"generate_ok": 4000, "generate_sign_verified": 4000, "purge_ok": 1000, "generate_err_clean": 4000, "purge_err_clean": 4000,
+                   "faults_fired": 8000, "plans_run": 8000, "scenarios": 600, "histories": 20000, "nontrivial": 1500},
+         "thorough": {"generate_ok": 250000, "purge_ok": 60000, "faults_fired": 400000, "plans_run": 8500, "histories": 1000000}},
+    assumptions=["fault model: an injected fault returns an error WITHOUT performing the call's effect (no rollback protocol can be all-or-nothing against a store that lies)",
+                 "an error of kind UndoOperationFailed is tolerated when at least one fault fired",
+                 "the position of a re-inserted method is free; its scope and references are not"],
+)
+
+CHECKS["C12"] = cfg(
+    "C12", exhaustive=True,
+    technique="runtime monitoring: bit-vector reference model; exhaustive (byte value x bit offset x written value) single-write table; random write histories; independent gzip/base64 codec; credential-level and validator oracles",
+    level_text="Every (byte value, offset, written value) single write at several byte positions, random 200-operation histories over every size class and credential-level scenarios for both purposes are executed on the real StatusList2021 / StatusList2021Credential and compared with a harness bit-vector: read = last write, no other entry changes (checked through get, a full sweep and the independently decoded encodedList), out-of-range => Err never panic, encode/decode identity, one-way revocation vs reversible suspension, and the validator's verdict.",
+    min={"quick": {"table_cases": 12000, "set_false_with_set_neighbours": 5000, "oob_probes": 2000, "roundtrip_identical": 12000, "list_credentials": 150,
+                   "cred_writes_ok": 600, "cred_unrevoke_attempts": 80, "cred_unsuspend_ok": 80, "status_matching": 300, "status_revoked": 100, "status_suspended": 100,
+                   "status_oob": 5, "nontrivial": 12300},
+         "thorough": {"table_cases": 40000, "set_false_with_set_neighbours": 100000, "oob_probes": 50000, "status_matching": 9000, "nontrivial": 41000}},
+    thorough=[{"flavour": "checked", "shards": 16, "timeout": 3000},
+              {"flavour": "miri", "shards": 4, "timeout": 3000, "args": {"scale": 3}}],
+    assumptions=["MSB-first bit order as in the W3C draft", "any Err variant is accepted where an error is required",
+                 "a refused un-revoke may return Ok as long as the entry stays set"],
+)
+
+CHECKS["C20"] = cfg(
+    "C20", exhaustive=True,
+    technique="runtime monitoring with a controlled scheduler: gate-controlled recording handlers, hand-polled futures with a counting waker, enumeration of all completion orders; did:jwk expansion oracle; threaded TSan/Miri flavours",
+    level_text="Harness handlers log (table entry, DID) and complete only when the harness opens their gate while resolve/resolve_multiple are polled by hand, so every completion order of up to 5 pending handlers (all 120) is driven, on the Send and the single-threaded resolver: exactly one call on the handler registered for the method, with the input DID; unsupported method => error and no call; resolve_multiple = one entry per distinct DID equal to single resolution, for every order, Err iff some DID fails. did:jwk over generated public JWKs must expand to a document whose single method carries exactly that key.",
+    min={"quick": {"multi_cases": 4000, "multi_ok": 2000, "multi_err": 2000, "orders_enumerated_exhaustively": 2000, "single_ok": 2000, "single_unsupported": 400,
+                   "handler_calls_checked": 7000, "jwk_public_accepted": 3000, "jwk_docs_checked": 5000, "threaded_cases": 80, "distinct:orders": 250, "nontrivial": 500},
+         "thorough": {"multi_cases": 400000, "multi_ok": 100000, "orders_enumerated_exhaustively": 150000, "jwk_docs_checked": 150000, "threaded_cases": 6000}},
+    thorough=[{"flavour": "checked", "shards": 16, "timeout": 3000},
+              {"flavour": "tsan", "shards": 8, "timeout": 3000, "args": {"scale": 100}},
+              {"flavour": "miri", "shards": 4, "timeout": 3000, "args": {"scale": 2}}],
+    assumptions=["fragment '#0' and the exact relationship set of a did:jwk document are not demanded by the statement (counted)",
+                 "liveness only as bounded progress: every gated future completes once all gates are open"],
+)
+
 # Default entries for properties whose monitors are being built (not claimed in MANIFEST.json until enabled).
 for _pid in ["C%02d" % i for i in range(1, 21)]:
     if _pid not in CHECKS:
         CHECKS[_pid] = cfg(_pid, disabled=True)
-CHECKS["C09"]["level"] = "fault_enumeration"
 CHECKS["C05"]["death_is_violation"] = True
